@@ -191,6 +191,9 @@ func (p *wat2cWorker) buildFunc_ins(w io.Writer, fn *ast.Func, stk *valueTypeSta
 
 	case token.INS_BLOCK:
 		i := i.(ast.Ins_Block)
+		if i.Label == "" {
+			i.Label = p.genAnonLabel() // br N 可以跳转到没有名字的块
+		}
 
 		stkBase := stk.Len()
 		defer func() { assert(stk.Len() == stkBase+len(i.Results)) }()
@@ -215,6 +218,9 @@ func (p *wat2cWorker) buildFunc_ins(w io.Writer, fn *ast.Func, stk *valueTypeSta
 
 	case token.INS_LOOP:
 		i := i.(ast.Ins_Loop)
+		if i.Label == "" {
+			i.Label = p.genAnonLabel() // br N 可以跳转到没有名字的块
+		}
 
 		stkBase := stk.Len()
 		defer func() { assert(stk.Len() == stkBase+len(i.Results)) }()
@@ -239,6 +245,9 @@ func (p *wat2cWorker) buildFunc_ins(w io.Writer, fn *ast.Func, stk *valueTypeSta
 
 	case token.INS_IF:
 		i := i.(ast.Ins_If)
+		if i.Label == "" {
+			i.Label = p.genAnonLabel() // br N 可以跳转到没有名字的块
+		}
 
 		sp0 := stk.Pop(token.I32)
 		fmt.Fprintf(w, "%sif(R%d.i32) {\n", indent, sp0)
@@ -349,7 +358,6 @@ func (p *wat2cWorker) buildFunc_ins(w io.Writer, fn *ast.Func, stk *valueTypeSta
 
 		scopeStackBase := p.scopeStackBases[len(p.scopeLabels)-labelIdx-1]
 		scopeResults := p.scopeResults[len(p.scopeLabels)-labelIdx-1]
-
 
 		// 如果是跨越多个Block, 只需要丢弃中间block的栈数据即可
 		if scopeStackBase > stk.Len() {
